@@ -9,7 +9,7 @@ from ..fmt import mdl
 LEVEL = "exploration"
 RULE = ("random models: versions 5 and 6, 1..3 LODs, 1..4 meshes per LOD, declarations drawn from every reader-supported (usage,type) pair over 1..3 streams with random element "
         "offsets and strides, random vertex / index buffer bytes, sub-mesh splits, material / bone / attribute names, bone tables (fixed 64-entry v5, counted v6), shapes on meshes with "
-        "start_index 0, element ids, padding, declarations filled to all 16 slots, terrain-shadow mesh / sub-mesh tables, v6 bone tables of up to 300 entries, up to 257 bones; pattern sweeps enumerating all 65536 half patterns and all 256 byte values in every component position. Oracle: per-component accept sets "
+        "start_index 0, element ids, padding, vertex streams laid out in shuffled order with unused bytes between them, declarations filled to all 16 slots, terrain-shadow mesh / sub-mesh tables, v6 bone tables of up to 300 entries, up to 257 bones; pattern sweeps enumerating all 65536 half patterns and all 256 byte values in every component position. Oracle: per-component accept sets "
         "(IEEE half exact, f32 by bits, bytes, u8/255 within 1 ulp; documented leniencies for BiTangent / BlendWeights Byte4,UShort4 / BlendIndices UShort4 / Tangent), index lists, sub-mesh "
         "ranges, raw streams, names, shape morph deltas. non-trivial = model with >= 2 meshes or >= 2 streams or a shape; distinct = digest of the file")
 ASSUMPTIONS = ["MDL layout as documented (Lumina/Penumbra/TexTools); v6 bone-table / bone-map layout as the reader implements it (validated by probe)",
@@ -105,7 +105,7 @@ def gen_model(rng, maxv, pairs=None, version=None, canonical=False, wide=False):
             cuts = sorted(rng.randint(0, nidx) for _ in range(nsub - 1))
             bounds = [0] + cuts + [nidx]
             submeshes = [(bounds[i + 1] - bounds[i], rng.getrandbits(32), rng.randrange(4), rng.randrange(4)) for i in range(nsub)]
-            meshes.append(dict(elements=els, strides=strides, nstreams=nstreams, vcount=vcount, streams=[bytes(s) for s in streams], indices=indices, submeshes=submeshes,
+            meshes.append(dict(unused_stride=rng.choice([0, 0, 0, 7, 255]) if wide else 0, elements=els, strides=strides, nstreams=nstreams, vcount=vcount, streams=[bytes(s) for s in streams], indices=indices, submeshes=submeshes,
                                material=rng.randrange(nmat), bone_table=0, shape_mesh=shape_mesh))
         lods.append(meshes)
     names = rng.sample(NAMES, len(NAMES))
@@ -115,6 +115,8 @@ def gen_model(rng, maxv, pairs=None, version=None, canonical=False, wide=False):
              element_ids=[(rng.getrandbits(16), 0, 0.0, 1.0, 2.0, 0.0, 0.0, 0.0) for _ in range(rng.choice([0, 0, 2]))], gap=0 if canonical else rng.choice([0, 0, 16]),
              header=dict(flags1=rng.choice([0x80, 0x40, 0x20, 0x10, 8, 4, 2, 1]), flags2=rng.choice([0, 0x80, 0x40, 0x20, 0x10, 8, 4, 2, 1]), radius=rng.random() * 10,
                          unknown7=rng.getrandbits(16), bg_change=rng.randrange(256)), extra_strings=["unused_string"] if rng.random() < 0.3 else [])
+    if wide and rng.random() < 0.3:
+        m["stream_shuffle_seed"] = rng.getrandbits(30)
     if wide:
         if rng.random() < 0.35:
             m["terrain_shadow_meshes"] = [rng.randbytes(20) for _ in range(rng.choice([0, 1, 2, 7, 255]))]
@@ -248,6 +250,8 @@ def classes_of(m):
         cl.add("terrain-shadow-meshes")
     if m.get("terrain_shadow_submeshes"):
         cl.add("terrain-shadow-submeshes")
+    if m.get("stream_shuffle_seed") is not None:
+        cl.add("vertex-streams:shuffled-with-gaps")
     if any(len(t) > 64 for t in m.get("bone_tables", [])):
         cl.add("bone-table:>64")
     if len(m.get("bones", [])) > 64:
